@@ -289,6 +289,24 @@ def masks():
                 return f"affine adaptation of a {vt} variable accepted"
             except ValueError:
                 pass
+        # arrays of MIXED type (one type letter per entry): the integer entries cannot be affinely adapted -- whole, or through any
+        # subscript that selects one of them -- the continuous ones can
+        for vt, sel, bad in (("CB", 1, True), ("CB", 0, False), ("CB", slice(None), True), ("IC", [0], True), ("IC", [1], False),
+                             ("CCBI", slice(0, 2), False), ("CCBI", slice(1, 3), True), ("CCBI", -1, True), ("CCBI", [1, 0], False)):
+            v = m.dvar(len(vt), vt)
+            try:
+                v[sel].adapt(z)
+                raised = False
+            except ValueError:
+                raised = True
+            if raised != bad:
+                return f"dvar({len(vt)}, vtype={vt!r})[{sel}].adapt(z): " + ("accepted although an integer entry is selected" if bad else "rejected although only continuous entries are selected")
+        v = m.dvar(2, "CB")
+        try:
+            v.adapt(z)
+            return "affine adaptation of a whole array with a binary entry (vtype 'CB') accepted"
+        except ValueError:
+            pass
         x = m.dvar(2)
         x.adapt(0)
         try:
